@@ -364,6 +364,7 @@ type Oth { a: Int b: String }`
 		x.close(ctx)
 		y.close(ctx)
 	}
+	concIndexWitness(e)
 }
 
 func minInt(a, b int) int {
